@@ -105,9 +105,10 @@ func (g *gen) genFuncFor(ftyp *types.Signature) error {
 	firstVar, gtyp := currySig(ftyp)
 	firstStr := g.TypeString(types.NewTuple(firstVar))
 	gStr := g.TypeString(gtyp)
+	f := derive.UnusedName("f", ftyp.Params(), ftyp.Results())
 	p.P("")
 	p.P("// %s returns a function that has one parameter, which corresponds to the input functions first parameter, and a result that is a function, which takes the rest of the parameters as input and finally returns the original input function's results.", name)
-	p.P("func %s(f %s) func%s %s {", name, fStr, firstStr, gStr)
+	p.P("func %s(%s %s) func%s %s {", name, f, fStr, firstStr, gStr)
 	p.In()
 	p.P("return func%s %s {", firstStr, gStr)
 	p.In()
@@ -115,9 +116,9 @@ func (g *gen) genFuncFor(ftyp *types.Signature) error {
 	p.In()
 	as := varnames(ftyp.Params())
 	if ftyp.Results().Len() == 0 {
-		p.P("f(%s)", strings.Join(as, ", "))
+		p.P("%s(%s)", f, strings.Join(as, ", "))
 	} else {
-		p.P("return f(%s)", strings.Join(as, ", "))
+		p.P("return %s(%s)", f, strings.Join(as, ", "))
 	}
 	p.Out()
 	p.P("}")
